@@ -35,6 +35,7 @@ class Explorer {
  public:
   int budget[NKINDS] = {0, 0, 0, 0, 0};
   bool useHash = false;
+  unsigned hashBudgetMask = 0xff;  // budget kinds mixed into the state hash (kinds whose budget is unbounded are left out)
   bool collectOnly = false;
   std::unordered_map<uint64_t, std::string>* debugPaths = nullptr;  // state -> first choice path (debug)  // compute and record state hashes but never prune (validation of the fingerprint)
   std::unordered_set<uint64_t> visited;
@@ -71,7 +72,7 @@ class Explorer {
   bool checkpoint(uint64_t stateHash) {
     if (!useHash || trace.size() < prefix.size()) return true;
     uint64_t h = stateHash;
-    for (int k = 1; k < NKINDS; k++) h = h * 1099511628211ULL ^ (uint64_t)(left[k] + 1);
+    for (int k = 1; k < NKINDS; k++) if (hashBudgetMask & (1u << k)) h = h * 1099511628211ULL ^ (uint64_t)(left[k] + 1);
     bool fresh = visited.insert(h).second;
     if (fresh && debugPaths) (*debugPaths)[h] = choicesStr();
     if (!fresh && !collectOnly) { aborted = true; pruned++; return false; }
